@@ -232,8 +232,8 @@ Fixpoint resolve_all (m : smap) (l : list Z) : option (list name) :=
     end
   end.
 
-(* read_site up to and including FILTER; None = any error (n_allele = 0 panics in the pinned
-   tree: also None here, it cannot come from the writer); returns the INFO bytes *)
+(* read_site up to and including FILTER; None = any error (n_allele = 0: "missing reference
+   bases"); returns the INFO bytes *)
 Definition dec_head (strings contigs : smap) (bs : list N) : option (head * list N) :=
   match chunks 4 4 bs with
   | Some ([c; p; l; q], r0) =>
@@ -301,8 +301,8 @@ Definition value_payload (code len : Z) : option nat :=
   else None.
 
 (* the typed value at the head of bs (descriptor + payload) and what follows it.  series = true:
-   a per-sample series, whose descriptor may not be the MISSING type (.expect("unhandled type"))
-   nor a zero-length Int/Float (InvalidLength) *)
+   a per-sample series, whose descriptor may not be the MISSING type (TypeMismatch) nor a
+   zero-length Int/Float (InvalidLength) *)
 Definition split_typed (series : bool) (mult : nat) (bs : list N) : option (list N * list N) :=
   match read_type bs with
   | Some (code, len, r) =>
